@@ -556,8 +556,12 @@ class GBNFCompiler:
         return "[^\\n]*"
 
     def _compile_date(self) -> str:
-        """Compile DATE constraint to YYYY-MM-DD pattern."""
-        return '[0-9][0-9][0-9][0-9] "-" [0-9][0-9] "-" [0-9][0-9]'
+        """Compile DATE constraint to a quoted YYYY-MM-DD pattern.
+
+        The date is generated inside quotes: a bare 2024-01-15 is read by the lexer as the
+        numbers 2024, -01 and -15, never as the text the DATE constraint checks.
+        """
+        return '"\\"" [0-9][0-9][0-9][0-9] "-" [0-9][0-9] "-" [0-9][0-9] "\\""'
 
     def _compile_iso8601(self) -> str:
         """Compile ISO8601 constraint to datetime pattern."""
@@ -565,7 +569,8 @@ class GBNFCompiler:
         date = '[0-9][0-9][0-9][0-9] "-" [0-9][0-9] "-" [0-9][0-9]'
         time = '"T" [0-9][0-9] ":" [0-9][0-9] ":" [0-9][0-9]'
         tz = '("Z" | ("+" | "-") [0-9][0-9] ":" [0-9][0-9])?'
-        return f"{date} ({time} {tz})?"
+        # Quoted for the same reason as DATE: the bare text does not survive the lexer
+        return f'"\\"" {date} ({time} {tz})? "\\""'
 
     def _escape_literal(self, value: str) -> str:
         """Escape special characters for GBNF literal.
